@@ -425,12 +425,20 @@ class Buildable(Generic[T], metaclass=abc.ABCMeta):
         include_no_value=True,
     )
     var_positional_start = self.__signature_info__.var_positional_start
+    if var_positional_start is None:
+      # No *args: all positional arguments are non-variadic.
+      var_positional_start = len(all_positional_args)
     if isinstance(key, slice):
       key = key.indices(len(all_positional_args))
       indices = list(range(*key))
     else:
       if key < 0:
         key += len(all_positional_args)
+      if key < 0 or key >= len(all_positional_args):
+        raise IndexError(
+            f'Cannot delete positional argument with index {key}'
+            ' (index out of range).'
+        )
       indices = [key]
 
     old_placeholders = [
@@ -438,7 +446,7 @@ class Buildable(Generic[T], metaclass=abc.ABCMeta):
     ]
     new_placeholders = old_placeholders.copy()
     # Traverse from largest index to maintain order of undeleted indices.
-    for index in indices[::-1]:
+    for index in sorted(indices, reverse=True):
       if index < var_positional_start:
         k = self.__signature_info__.index_to_key(index, self.__arguments__)
         if k in self.__arguments__:
